@@ -50,7 +50,13 @@ namespace occa {
     }
 
     void sizeofNode::print(printer &pout) const {
-      pout << "sizeof(" << *value << ')';
+      // sizeof(x) is parsed as sizeof applied to the parenthesized node (x):
+      // print those parentheses once, not sizeof((x))
+      if (value->type() & exprNodeType::parentheses) {
+        pout << "sizeof" << *value;
+      } else {
+        pout << "sizeof(" << *value << ')';
+      }
     }
 
     void sizeofNode::debugPrint(const std::string &prefix) const {
